@@ -28,7 +28,7 @@ the caches gives the same outcome (C01) and its verdict is the reference verdict
 `rule_ref_equiv_vars`, asked of the rule and registries with the caches removed. -/
 theorem rule_ref_equiv_cached (ctx : RCtx) (hreg : RegOK ctx) (r : Rule) (hc : CachesOK ctx r)
     (hctx : CtxVarFree (stripCtx ctx)) (hu : Tree.UniqueIds ctx.root) (hz : NoZeroWidth ctx.root)
-    (hfan : SmallFanout ctx.root) (hr : (stripR r).varDisjoint = true) (n : Tree)
+    (hr : (stripR r).varDisjoint = true) (n : Tree)
     (hn : n ∈ ctx.root.preorder) (f : Nat) (env : Env)
     (hfresh : ∀ v ∈ (stripR r).vars, alookup v env.single = none ∧ alookup v env.multi = none)
     (v : Option Tree × Env)
@@ -37,7 +37,7 @@ theorem rule_ref_equiv_cached (ctx : RCtx) (hreg : RegOK ctx) (r : Rule) (hc : C
   refine ⟨matchRule_transparent ctx hreg f r hc n env v h, ?_⟩
   rw [sat_strip]
   obtain ⟨res, env'⟩ := v
-  exact (rule_ref_equiv_vars (stripCtx ctx) hctx hu hz hfan (stripR r) hr n hn f env hfresh
+  exact (rule_ref_equiv_vars (stripCtx ctx) hctx hu hz (stripR r) hr n hn f env hfresh
     res env' h).1 f' hf
 
 
